@@ -6576,13 +6576,19 @@ fn eval_expr(
                     Rc::clone(&outer_expr),
                 );
 
-                eval_if(
+                if let Err(e) = eval_if(
                     env,
                     expr_value_is_used,
                     &condition.position,
                     then_body,
                     else_body.as_ref(),
-                )?;
+                ) {
+                    // No branch was entered. Undo the continuation
+                    // pushed above, otherwise every resume would add
+                    // another one.
+                    env.current_frame_mut().exprs_to_eval.pop();
+                    return Err(e);
+                }
             }
             ExpressionState::EvaluatedSubexpressions => {
                 env.current_frame_mut().bindings.pop_block();
